@@ -1,6 +1,7 @@
 (* C19 — property theorems only: each closed by [exact] of a lemma proved elsewhere. *)
-From Coq Require Import List String Bool.
-From Helm Require Import Misc.Creds Misc.CredsProofs.
+From Coq Require Import List String Ascii Bool.
+From Helm Require Import Misc.Creds Misc.CredsProofs Misc.CredsUrl Misc.CredsUrlProofs Misc.CredsRedirect Misc.CredsRedirectProofs
+  Misc.CredsSrc Gen.C19Origin Misc.CredsSrcProofs Misc.CredsEndToEnd.
 Import ListNotations.
 Local Open Scope string_scope.
 
@@ -104,3 +105,220 @@ Example C19_hypotheses_example :
   (forall a b ua, String.eqb a b = true -> ex_parse a = Some ua -> so ex_parse a b).
 Proof. exact ex_hypotheses. Qed.
 Print Assumptions C19_hypotheses_example.
+
+(* ================================================================== round 4 ==================
+   (1) the origin comparison on URL STRINGS: net/url.Parse transcribed (Misc/CredsUrl.v, exact
+       on every string without '%', compared with net/url on every run) *)
+
+(* For EVERY string: the host url.Parse reports is made of host bytes only - no '/', '?', '#',
+   '@', '\', blank or control byte - so it cannot hide a second authority. *)
+Theorem C19_parsed_host_clean :
+  forall s sc us h p, go_split s = SOk sc us h p ->
+    mem_byte "/" h = false /\ mem_byte "?" h = false /\ mem_byte "#" h = false /\
+    mem_byte "@" h = false /\ mem_byte "\" h = false /\ mem_byte " " h = false.
+Proof. exact go_split_host_clean. Qed.
+Print Assumptions C19_parsed_host_clean.
+
+(* The URL grammar, generatively: scheme "://" [userinfo "@"] host rest.  For ALL components
+   url.Parse accepts (any case in scheme and host, userinfo that may itself contain '@' and
+   ':', IPv6 literal in brackets, trailing dot, empty port, any path / query / fragment after
+   the authority) the parser recovers exactly: lower-cased scheme, userinfo, host AS SPELLED,
+   path. *)
+Theorem C19_url_grammar_split :
+  forall sch ui h rest,
+    valid_scheme sch = true -> valid_userinfo ui = true -> valid_host h = true -> valid_rest rest = true ->
+    go_split (build_url sch ui h rest) = SOk (lower sch) ui h (path_of_rest rest)
+    /\ in_grammar (build_url sch ui h rest) = true.
+Proof. exact go_split_build. Qed.
+Print Assumptions C19_url_grammar_split.
+
+(* For ALL pairs of URL strings of that grammar (configured URL, requested URL): a request is
+   made, and the configured pair is attached IFF pass-credentials is on or the schemes are
+   equal up to case and the host[:port] parts are equal BYTE FOR BYTE - and user name and
+   password are both non-empty.  (str_of = URL.String(), which plays no part here.) *)
+Theorem C19_getter_on_url_strings :
+  forall (str_of : string -> string) o sch1 ui1 h1 r1 sch2 ui2 h2 r2,
+    valid_scheme sch1 = true -> valid_userinfo ui1 = true -> valid_host h1 = true -> valid_rest r1 = true ->
+    valid_scheme sch2 = true -> valid_userinfo ui2 = true -> valid_host h2 = true -> valid_rest r2 = true ->
+    g_url o = build_url sch1 ui1 h1 r1 ->
+    (exists a, getter_get (go_parse str_of) o (build_url sch2 ui2 h2 r2) = GReq a) /\
+    forall c,
+    getter_get (go_parse str_of) o (build_url sch2 ui2 h2 r2) = GReq (Some c) <->
+    ((g_pass_all o = true \/ (lower sch1 = lower sch2 /\ h1 = h2)) /\
+     g_user o <> "" /\ g_pass o <> "" /\ c = Cred (g_user o) (g_pass o) (g_src o)).
+Proof. exact getter_strings_iff. Qed.
+Print Assumptions C19_getter_on_url_strings.
+
+(* The property's direction at full strength (any parser): a pair is attached ONLY when
+   pass-credentials is on or scheme, host name (case-insensitively) and effective port (default
+   port filled in, as a number) of the two URLs are equal. *)
+Theorem C19_attached_only_same_origin :
+  forall (parse : string -> option url) o href c,
+    getter_get parse o href = GReq (Some c) ->
+    g_pass_all o = true \/
+    exists u1 u2, parse (g_url o) = Some u1 /\ parse href = Some u2 /\ origin_of u1 = origin_of u2.
+Proof. exact getter_attached_property_origin. Qed.
+Print Assumptions C19_attached_only_same_origin.
+
+(* The converse does NOT hold, in the safe direction: the code is stricter than the property.
+   It compares url.Host byte for byte and so withholds the pair from requests to the
+   repository's own origin spelled differently - one witness per normalisation it does not do
+   (default port spelled out, on either side; host-name case; empty port; leading zero;
+   bracketed IPv6 with default port): same origin, both URLs parse, credentials set,
+   pass-credentials off, and the request goes out WITHOUT the pair. *)
+Theorem C19_same_origin_not_always_attached_refuted :
+  forallb converse_witness_ok
+    [ ("http://h.test/charts", "http://h.test:80/charts/a.tgz");
+      ("https://h.test:443/charts", "https://h.test/charts/a.tgz");
+      ("http://h.test/charts", "http://H.test/charts/a.tgz");
+      ("http://h.test/charts", "http://h.test:/charts/a.tgz");
+      ("http://h.test:80/charts", "http://h.test:080/charts/a.tgz");
+      ("http://[::1]/charts", "http://[::1]:80/charts/a.tgz") ] = true.
+Proof. exact origin_converse_refuted. Qed.
+Print Assumptions C19_same_origin_not_always_attached_refuted.
+
+(* the origin of the property tells the default port of the OTHER protocol apart: http://h:443
+   is not http://h, https://h:80 is not https://h (what seeded change C19-7 conflated), while
+   http://h:80 is http://H *)
+Example C19_origin_other_default_port :
+  origin_eqb (origin_of (mkUrl "http" "h.test:443" "" None "")) (origin_of (mkUrl "http" "h.test" "" None "")) = false /\
+  origin_eqb (origin_of (mkUrl "https" "h.test:80" "" None "")) (origin_of (mkUrl "https" "h.test" "" None "")) = false /\
+  origin_eqb (origin_of (mkUrl "http" "h.test:80" "" None "")) (origin_of (mkUrl "http" "H.TEST" "" None "")) = true.
+Proof. exact origin_other_default_port_differs. Qed.
+Print Assumptions C19_origin_other_default_port.
+
+(* (2) every entry point, in terms of the property's origin (same hypotheses about library
+   code as C19_paths_scope): a request carries a repository entry's own pair only if that
+   entry has pass-credentials on or the request is on the origin of the entry's URL; the
+   command-line pair only if the flag is on or the request is on the origin of the repository
+   it was given for.  The .prov request is one of the requests; a chart URL that several
+   repositories list is covered (fix 0ca3ebf). *)
+Theorem C19_paths_origin :
+  forall (parse : string -> option url) (url_equal : string -> string -> bool)
+         (lookup : entry -> string -> string -> option string) (index_url : string -> option string)
+         (find_in : string -> string -> string -> option string)
+         (dep_url : entry -> string -> string -> string -> option string),
+    (forall s u, parse s = Some u -> so parse s (u_str u)) ->
+    (forall s u, parse s = Some u -> nonempty (u_path u) = true -> so parse s (u_str u ++ ".prov")) ->
+    (forall r n v cu u, find_in r n v = Some cu -> parse cu = Some u -> abs3 u = true) ->
+    (forall cr d n v cu u, dep_url cr d n v = Some cu -> parse cu = Some u -> abs3 u = true) ->
+    (forall a b ua, url_equal a b = true -> parse a = Some ua -> so parse a b) ->
+    (forall e href c, In (href, GReq (Some c)) (download_index parse index_url e) ->
+       c = Cred (e_user e) (e_pass e) (e_url e) /\ has_creds e = true /\
+       (e_pass_all e = true \/ same_prop_origin parse (e_url e) href))
+    /\ (forall c name repos ok href cr,
+          In (href, GReq (Some cr)) (locate_chart parse url_equal lookup index_url find_in c name repos ok) ->
+          caller_cred_origin_ok parse (cli_opts parse c name repos) cr href \/ repo_cred_origin_ok parse repos cr href)
+    /\ (forall c name repos wp ok href cr,
+          In (href, GReq (Some cr)) (pull parse url_equal lookup index_url find_in c name repos wp ok) ->
+          caller_cred_origin_ok parse (cli_opts parse c name repos) cr href \/ repo_cred_origin_ok parse repos cr href)
+    /\ (forall dep_repo name ver repos wp ok href cr,
+          In (href, GReq (Some cr)) (manager_dep parse url_equal lookup index_url find_in dep_url dep_repo name ver repos wp ok) ->
+          repo_cred_origin_ok parse repos cr href).
+Proof. exact paths_origin. Qed.
+Print Assumptions C19_paths_origin.
+
+(* The translator tie (Gen/C19Origin.v is read from /repo with go/ast on every run): the
+   credential decision of each function, as the SOURCE computes it, equals the model's
+   decision for EVERY assignment of the atoms (pass flag, scheme / host equality, user /
+   password set, --repo given, parse errors, one more boolean for any other condition). *)
+Theorem C19_source_decisions :
+  (forall r, eval_c r getter_attach_src = getter_attach r) /\
+  (forall r args, In args getter_attach_args_src -> map (eval_s r) args = [TUser; TPass]) /\
+  (forall r, apply_slist (eval_l r locate_chart_options_src) = caller_sopts (locate_keep r) r) /\
+  (forall r, apply_slist (eval_l r pull_run_options_src) = caller_sopts (pull_keep r) r) /\
+  (forall r, apply_slist (eval_l r manager_download_all_options_src) = caller_sopts (manager_keep r) r) /\
+  (forall r, map (fun l => apply_slist (eval_l r l)) resolve_returns_src =
+             [sopts0; mkSO (Some TRef) None None; entry_sopts r; entry_sopts r]) /\
+  download_to_gets_src = [("u.String()", 0, "c.Options"); ("u.String() + lit:.prov", 0, "")] /\
+  (forall r, apply_slist (eval_l r download_index_options_src) = mkSO (Some TRepoUrl) (Some (TUser, TPass)) (Some (v_pass_all r))).
+Proof.
+  exact (conj getter_attach_source (conj getter_attach_args_source (conj locate_chart_source (conj pull_run_source
+        (conj manager_download_all_source (conj resolve_returns_source (conj download_to_gets_source download_index_source))))))).
+Qed.
+Print Assumptions C19_source_decisions.
+
+(* ... and the model's decisions are the model's definitions: the getter (so the condition
+   read from the source decides getter_get), the dependency manager's scoped_creds, the tail
+   ResolveChartVersion appends for a repository entry *)
+Theorem C19_decisions_are_the_model :
+  (forall parse o href u1 u2, parse (g_url o) = Some u1 -> parse href = Some u2 ->
+     getter_get parse o href =
+     if eval_c (getter_assignment o u1 u2) getter_attach_src
+     then GReq (Some (Cred (g_user o) (g_pass o) (g_src o))) else GReq None) /\
+  (forall parse dep_repo churl user pass pa,
+     scoped_creds parse dep_repo churl user pass pa =
+     if manager_keep (manager_assignment user pass pa (parse dep_repo) (parse churl)) then (user, pass) else ("", "")) /\
+  (forall o rc,
+     apply_opts o ((OUrl (e_url rc) :: OOther :: entry_cred_opts rc) ++ [OOther]) =
+     overlay_entry o rc (entry_sopts (entry_assignment rc))).
+Proof. exact (conj getter_get_source (conj scoped_creds_decision resolve_entry_decision)). Qed.
+Print Assumptions C19_decisions_are_the_model.
+
+(* LocateChart and Pull.Run after a --repo lookup: the option list handed to the downloader
+   ends with the pair kept by locate_keep resp. with a blanking option unless pull_keep *)
+Theorem C19_cli_decisions_are_the_model :
+  (forall parse url_equal lookup index_url find_in c name repos ok chart_url u1 u2,
+     nonempty (c_repo_url c) = true -> find_in (c_repo_url c) name (c_version c) = Some chart_url ->
+     parse (c_repo_url c) = Some u1 -> parse chart_url = Some u2 ->
+     locate_chart parse url_equal lookup index_url find_in c name repos ok =
+     (download_index parse index_url (adhoc_entry (c_repo_url c) (c_user c) (c_pass c) (c_pass_all c)) ++
+      download_to parse url_equal lookup
+        ([OPassAll (c_pass_all c); OOther; OOther; OOther; OBasicAuth (c_user c) (c_pass c) (cmdline_src parse c name repos)]
+         ++ [cli_pair c (cmdline_src parse c name repos) (locate_keep (cli_assignment c u1 u2))])
+        chart_url (c_version c) repos (c_verify c) ok)%list) /\
+  (forall parse url_equal lookup index_url find_in c name repos wp ok chart_url u1 u2,
+     nonempty (c_repo_url c) = true -> find_in (c_repo_url c) name (c_version c) = Some chart_url ->
+     parse (c_repo_url c) = Some u1 -> parse chart_url = Some u2 ->
+     pull parse url_equal lookup index_url find_in c name repos wp ok =
+     (download_index parse index_url (adhoc_entry (c_repo_url c) (c_user c) (c_pass c) (c_pass_all c)) ++
+      download_to parse url_equal lookup
+        ([OBasicAuth (c_user c) (c_pass c) (cmdline_src parse c name repos); OPassAll (c_pass_all c); OOther; OOther; OOther]
+         ++ (if pull_keep (cli_assignment c u1 u2) then [] else [OBasicAuth "" "" ""]))
+        chart_url (c_version c) repos wp ok)%list).
+Proof. exact (conj locate_chart_decision pull_decision). Qed.
+Print Assumptions C19_cli_decisions_are_the_model.
+
+(* (3) redirects.  Helm installs no CheckRedirect; net/http's policy (Misc/CredsRedirect.v,
+   compared with the real client on every run) composed with the getter's decision: every
+   request of one Get - first hop and follow-ups - that carries the pair Helm attached is
+   covered by pass-credentials, or the first hop is on the configured URL's scheme and
+   host:port and the request is that first hop or has the configured host NAME or a
+   sub-domain of it as its host name. *)
+Theorem C19_redirects_scope :
+  forall (parse : string -> option url) o href c u hops d,
+    getter_get parse o href = GReq (Some c) -> parse href = Some u ->
+    In (d, Some c) (combine (u :: hops) (Some c :: hop_auths u (Some c) hops)) ->
+    g_pass_all o = true \/
+    exists u1, parse (g_url o) = Some u1 /\ same_origin u1 u = true /\
+               (d = u \/ is_domain_or_subdomain (hostname (u_host d)) (hostname (req_host (u_host u1))) = true).
+Proof. exact get_with_redirects_scope. Qed.
+Print Assumptions C19_redirects_scope.
+
+(* isDomainOrSubdomain, readably: equal, or label "." parent (and no ':' / '%' in it) *)
+Theorem C19_subdomain_spec :
+  forall sub parent,
+    is_domain_or_subdomain sub parent = true <->
+    sub = parent \/ (mem_byte ":" sub = false /\ mem_byte "%" sub = false /\ exists label, sub = label ++ "." ++ parent).
+Proof. exact is_domain_or_subdomain_spec. Qed.
+Print Assumptions C19_subdomain_spec.
+
+(* the clause the property text spells out - a redirect to an unrelated domain carries no
+   Authorization header Helm attached, and neither does any later hop of that chain *)
+Theorem C19_redirect_unrelated_stripped :
+  forall initial a pre d post,
+    should_copy (req_host (u_host initial)) d = false ->
+    forall x c, In (x, Some c) (combine (pre ++ d :: post)%list (hop_auths initial a (pre ++ d :: post)%list)) -> In x pre.
+Proof. exact redirect_unrelated_stripped. Qed.
+Print Assumptions C19_redirect_unrelated_stripped.
+
+(* What does NOT hold (known findings K-C19-1a/b/c, replayed on the real code on every run):
+   a repository at https://repo.example with a pair and pass-credentials off; a redirect to
+   another port, to plain http, or to a sub-domain is followed WITH the pair although the
+   target's origin is not the repository's. *)
+Theorem C19_redirect_related_refuted :
+  k1_witness "https://repo.example:8443/_landed/a-1.0.0.tgz" = true /\
+  k1_witness "http://repo.example:8080/_landed/a-1.0.0.tgz" = true /\
+  k1_witness "https://cdn.repo.example/_landed/a-1.0.0.tgz" = true.
+Proof. exact redirect_related_refuted. Qed.
+Print Assumptions C19_redirect_related_refuted.
